@@ -134,3 +134,39 @@ func H_C10_triples() {
 }
 
 var c10Last any
+
+// H_C10_selectors: an operand that ends in a selector which may or may not be
+// followed by a projected right-hand side (flatten, wildcard, filter, slice,
+// index) in each operand position of a two-operator chain: the operators
+// group as they do around plain operands (differential against the reference
+// parser and evaluator).
+func H_C10_selectors() {
+	reps := []string{"|", "||", "&&", "==", "+", "*"}
+	sels := []string{"a[]", "a[*]", "a[?b]", "a[1:]", "a.*", "a[0]", "a[].b"}
+	ns, nr := len(sels), len(reps)
+	if vrtTier() == 0 {
+		ns, nr = 3, 5
+	}
+	o1 := reps[vrtChoose("op1", nr)]
+	o2 := reps[vrtChoose("op2", nr)]
+	x := sels[vrtChoose("sel", ns)]
+	var expr string
+	switch vrtChoose("pos", 3) {
+	case 0:
+		expr = x + " " + o1 + " b " + o2 + " c"
+	case 1:
+		expr = "b " + o1 + " " + x + " " + o2 + " c"
+	default:
+		expr = "b " + o1 + " c " + o2 + " " + x
+	}
+	vrtNote("template:" + expr)
+	vrtSpec(2, 2, 1, "a,b,c", smASCII, nfInt, 0)
+	vrtNumRange(0, 2)
+	vrtNested(1)
+	doc := map[string]any{
+		"a": vrtDoc("a", 2, uArr|uNil, uNil|uBool|uArr|uObj),
+		"b": vrtDoc("b", 0, uNil|uBool|uJNum, uJNum),
+		"c": vrtDoc("c", 0, uNil|uBool|uJNum, uJNum),
+	}
+	diffSearch(expr, doc, c01Unordered(expr))
+}
